@@ -43,7 +43,8 @@ fn run_presentation(v: &J, global: &GlobalContext<G>, idx: u64, stats: &mut std:
     let key = global.on_chain_commitment_key;
     let vals: Vec<String> = v["vals"].as_array().unwrap().iter().map(|s| s.as_str().unwrap().to_string()).collect();
     let attr = |i: &J| Web3IdAttribute::String(AttributeKind::try_new(vals[i.as_u64().unwrap() as usize - 1].clone()).unwrap());
-    let web3 = v["via"] == "web3_presentation";
+    let mixed = v["via"] == "mixed_presentation";
+    let web3 = v["via"] == "web3_presentation" || mixed;
     let perturb = v["perturb"].as_str().unwrap();
     let accept = v["accept"].as_bool().unwrap();
     let truth = v["truth"].as_bool().unwrap();
@@ -96,7 +97,16 @@ fn run_presentation(v: &J, global: &GlobalContext<G>, idx: u64, stats: &mut std:
                 statement: stmt.as_array().unwrap().iter().map(|a| atom(a, AttributeTag(a["tag"].as_u64().unwrap() as u8), &attr, &mk_set)).collect(),
             }
         };
-        Request { challenge: Challenge::new(challenge), credential_statements: vec![cs] }
+        let mut all = vec![cs];
+        if mixed {
+            // a second credential in the same presentation: an account credential revealing attribute 0
+            all.push(CredentialStatement::Account {
+                network: Network::Testnet,
+                cred_id,
+                statement: vec![AtomicStatement::RevealAttribute { statement: RevealAttributeStatement { attribute_tag: AttributeTag(0) } }],
+            });
+        }
+        Request { challenge: Challenge::new(challenge), credential_statements: all }
     };
     let signature = if web3 {
         match SignedCommitments::from_secrets(global, &vals_str, &rand_str, &holder_id, &issuer_key, contract) {
@@ -112,7 +122,11 @@ fn run_presentation(v: &J, global: &GlobalContext<G>, idx: u64, stats: &mut std:
         } else {
             CommitmentInputs::Account { issuer: IpIdentity::from(17u32), values: &vals_tag, randomness: &rand_tag }
         };
-        req.prove_with_rng(global, [inputs].into_iter(), rng, chrono::DateTime::<chrono::Utc>::from_timestamp(1_700_000_000, 0).unwrap())
+        let mut all = vec![inputs];
+        if mixed {
+            all.push(CommitmentInputs::Account { issuer: IpIdentity::from(17u32), values: &vals_tag, randomness: &rand_tag });
+        }
+        req.prove_with_rng(global, all.into_iter(), rng, chrono::DateTime::<chrono::Utc>::from_timestamp(1_700_000_000, 0).unwrap())
     };
     let request = make_request(&v["stmt"], [1u8; 32]);
     let what = |s: &str| format!("{} of statement {} over attributes {} (perturbation {}): {}", v["via"], v["stmt"], v["attrs"], perturb, s);
@@ -126,6 +140,7 @@ fn run_presentation(v: &J, global: &GlobalContext<G>, idx: u64, stats: &mut std:
         }
     };
     let mut public = if web3 { CredentialsInputs::Web3 { issuer_pk: issuer_key.verifying_key().into() } } else { CredentialsInputs::Account { commitments: cmm_tag.clone() } };
+    let mut public_second: Option<CredentialsInputs<G>> = if mixed { Some(CredentialsInputs::Account { commitments: cmm_tag.clone() }) } else { None };
     // a second presentation (another context, and a statement that is always provable) to borrow parts from
     let foreign = prove(make_request(&json!([{"k": "reveal", "tag": 0}]), [2u8; 32]), &mut rng).ok();
     match perturb {
@@ -184,19 +199,48 @@ fn run_presentation(v: &J, global: &GlobalContext<G>, idx: u64, stats: &mut std:
             }
             _ => return Ok(()),
         },
+        "proof_truncated" => match &mut pres.verifiable_credential[0] {
+            CredentialProof::Account { proofs, .. } => {
+                proofs.pop();
+            }
+            CredentialProof::Web3Id { proofs, .. } => {
+                proofs.pop();
+            }
+        },
+        // the account credential travelling with the web3 credential is altered / removed: the holder's signature covers it
+        "other_part" => match &mut pres.verifiable_credential[1] {
+            CredentialProof::Account { issuer, .. } => *issuer = IpIdentity::from(18u32),
+            _ => return fail("harness: second credential is not an account credential".into(), J::Null, J::Null),
+        },
+        "other_part_removed" => {
+            pres.verifiable_credential.pop();
+            public_second = None;
+        }
         "foreign_linking" => match foreign {
             Some(f) => pres.linking_proof = f.linking_proof,
             None => return Ok(()),
         },
         o => return fail(format!("unknown perturbation {}", o), J::Null, J::Null),
     }
-    let got = pres.verify(global, [public].iter());
+    let mut publics = vec![public];
+    if let Some(p2) = public_second {
+        publics.push(p2);
+    }
+    let got = pres.verify(global, publics.iter());
     let ok = match &got {
         Ok(r) => *r == request || perturb != "none",
         Err(_) => false,
     };
     // account presentations carry no linking signatures: borrowing an (empty) linking proof changes nothing
     let vacuous = !web3 && perturb == "foreign_linking";
+    if perturb == "proof_truncated" {
+        // a presentation carries its statements next to their proofs: dropping a pair leaves a valid presentation of FEWER statements, which the verifier
+        // notices because the request that comes back is not the one it made
+        return match &got {
+            Ok(r) if *r == request => fail(what("presentation with a (statement, proof) pair removed verifies for the original request"), json!(false), json!(true)),
+            _ => Ok(()),
+        };
+    }
     if got.is_ok() != accept && !(vacuous && truth) {
         return fail(what("verifies exactly when the statement is provable and nothing was altered"), json!(accept), json!(got.is_ok()));
     }
@@ -301,6 +345,9 @@ pub fn main(args: &[String]) -> i32 {
                     Ok(p) => proof2 = p,
                     Err(_) => return Ok(()),
                 }
+            }
+            "proof_truncated" => {
+                proof2.proofs.pop();
             }
             "version" => version2 = if version == ProofVersion::Version1 { ProofVersion::Version2 } else { ProofVersion::Version1 },
             o => return fail(format!("unknown perturbation {}", o), J::Null, J::Null),
